@@ -4,7 +4,7 @@ from __future__ import annotations
 
 import ast
 
-from tiv.astutil import conds, body_walk, call_name, dotted, enclosing_stmt, guards, kw, norm, short, stores_in, try_context, walk_local
+from tiv.astutil import conds, body_walk, call_name, dotted, enclosing_stmt, flatten_boolop, guards, kw, norm, short, stores_in, try_context, walk_local
 from tiv.cfg import CFG, EX, KI, flag_edges, fmt_path
 from tiv.mutate import M
 from tiv.sem import expand, econds, anon
@@ -159,7 +159,11 @@ def run(ck, m):
     # ---- R3 ----------------------------------------------------------------------------
     nx = m.get(IT, "RenderIterator.__next__")
     tr = next((s for s in nx.body if isinstance(s, ast.Try)), None)
-    ck.need(tr is not None and len(tr.handlers) >= 3, "RenderIterator.__next__: try with handlers not found")
+    ck.need(tr is not None and len(tr.handlers) >= 1, "RenderIterator.__next__: try with handlers not found")
+    caught = {(h.type.attr if isinstance(h.type, ast.Attribute) else getattr(h.type, "id", "?")) if h.type is not None and not isinstance(h.type, ast.Tuple) else
+              ("BaseException" if h.type is None else "|".join(norm(e) for e in h.type.elts)) for h in tr.handlers}
+    ck.ob("R3", tr, any(c in ("Exception", "BaseException") or "Exception" in c.split("|") for c in caught),
+          f"__next__ must handle every Exception raised by the frame generator (to close the iterator and finalize its data); its handlers catch only {sorted(caught)}", stmt="__next__: a handler catches Exception")
     for h in tr.handlers:
         fn_ = ast.FunctionDef(name="_h", args=ast.arguments(posonlyargs=[], args=[], kwonlyargs=[], kw_defaults=[], defaults=[]), body=h.body, decorator_list=[], lineno=h.lineno, col_offset=0)
         gh = CFG(fn_)
@@ -169,7 +173,7 @@ def run(ck, m):
         def edge(s, lab, d):
             if lab.startswith("e:") and not (s.kind == "stmt" and isinstance(s.ast, ast.Raise)):
                 return False
-            if s.kind == "test" and norm(s.ast) == "self._closed" and lab == "true":
+            if s.kind == "test" and lab == "true" and "self._closed" in [norm(v_) for v_ in flatten_boolop(s.ast, ast.And)]:
                 return False  # already closed: nothing to close
             return True
         p = None
@@ -211,8 +215,9 @@ def run(ck, m):
     gen = [st for t, st in stores_in(ast.Module(body=frd.body, type_ignores=[])) if norm(t).endswith("._iterator")]
     ck.ob("R5", frd, len(rej) == 1 and len(gen) == 1 and rej[0].lineno < gen[0].lineno and rej[0] in frd.body,
           "_from_render_data_ must reject finalized render data before creating the generator", stmt="_from_render_data_: reject finalized data first")
-    ae = next((h for h in tr.handlers if h.type is not None and norm(h.type) == "AttributeError"), None)
-    ok = ae is not None and isinstance(ae.body[0], ast.If) and norm(ae.body[0].test) == "self._closed" and isinstance(ae.body[0].body[0], ast.Raise) and "StopIteration" in norm(ae.body[0].body[0])
+    from rules.common import closed_stop
+    ae = next((r_ for r_ in body_walk(nx) if closed_stop(r_)), None)
+    ok = ae is not None
     ck.ob("R5", ae or nx, ok, "next() on a closed iterator must raise StopIteration", stmt="__next__: closed -> StopIteration")
     for meth in ("seek", "set_frame_duration", "set_padding", "set_render_args", "set_render_size"):
         f = m.get(IT, f"RenderIterator.{meth}")
